@@ -40,28 +40,27 @@ CORE = "onnx_ir._core"
 # (regex on "Origin.local: condition", regex on the via-chain or None, reason)
 INFEASIBLE = [
     {"guard": '^_LinkBox\\.erase: self\\.value is None', "via": None, "why": 'erase() is only called by DoublyLinkedSet.remove on a box taken from the id→box map, which holds live boxes only (C11-R3)', "requires": ()},
-    {"guard": '^DoublyLinkedSet\\.remove: key of `del self\\._value_ids_to_boxes\\[\\$\\d+\\]` absent', "via": None, "why": 'dominated by the `value_id not in self._value_ids_to_boxes` rejection in the same function', "requires": ()},
-    {"guard": '^DoublyLinkedSet\\._insert_one_after: box\\.owning_list is not self', "via": None, "why": "box is self._root(.prev) or a box from self's own map in every caller (C11-R3 insertion entry points)", "requires": ()},
+    {"guard": '^DoublyLinkedSet\\._insert_one_after: \\$p1\\.owning_list is not self', "via": None, "why": "box is self._root(.prev) or a box from self's own map in every caller (C11-R3 insertion entry points)", "requires": ()},
     {"guard": '^DoublyLinkedSet\\.remove: \\(\\$\\d+ := id\\(value\\)\\) not in self\\._value_ids_to_boxes', "via": 'DoublyLinkedSet\\._insert_one_after', "why": 'the call in _insert_one_after is guarded by `id in self._value_ids_to_boxes`', "requires": ()},
     {"guard": '^DoublyLinkedSet\\.remove: \\(\\$\\d+ := id\\(value\\)\\) not in self\\._value_ids_to_boxes', "via": '^onnx_ir\\._core:Graph\\.remove$|Graph\\.remove,', "why": 'Graph.remove validated `node.graph is self` for every node before unlinking; a node names a graph iff it is in its list (C01-R3b)', "requires": ('(node|\\$\\d+)\\.graph is not self',)},
-    {"guard": '^DoublyLinkedSet\\._insert_one_after: new_value is None', "via": None, "why": 'every Graph-level caller dereferences the node (node.graph) in _set_node_graph_to_self_and_assign_names first', "requires": ()},
-    {"guard": '^Value\\._remove_usage: `self\\._uses\\.pop\\(Usage\\(use, index\\)\\)`: key absent', "via": None, "why": 'a use (node, i) is registered for every non-None input slot (C01-R3a), and the caller checked old_input is not None', "requires": ()},
+    {"guard": '^DoublyLinkedSet\\._insert_one_after: \\$p2 is None', "via": None, "why": 'every Graph-level caller dereferences the node (node.graph) in _set_node_graph_to_self_and_assign_names first', "requires": ()},
+    {"guard": '^Value\\._remove_usage: `self\\._uses\\.pop\\(Usage\\(\\$p1, \\$p2\\)\\)`: key absent', "via": None, "why": 'a use (node, i) is registered for every non-None input slot (C01-R3a), and the caller checked old_input is not None', "requires": ()},
     {"guard": '^Node\\.replace_input_with: index < 0 or index >= len\\(self\\.inputs\\)', "via": 'Graph\\.remove|Node\\.resize_inputs|Value\\.replace_all_uses_with', "why": 'the index is drawn from range(len(node.inputs)) / from value.uses(), which are in range for their node (C01-R3a)', "requires": ()},
     {"guard": '^Value\\.name\\.setter: ', "via": 'NameAuthority\\.register_or_name_value', "why": "the name authority assigns a name only when value.name is None, and an initializer always has a name, so the setter's initializer branch is dead", "requires": ()},
     {"guard": '^(GraphInitializers\\.(__setitem__|_check_item)|GraphInitializers\\.(_set_graph|_check_can_set_graph)|UserDict\\.__delitem__@GraphInitializers): ', "via": 'NameAuthority\\.register_or_name_value', "why": "reached only through the name setter's initializer branch, dead for a value whose name is None", "requires": ()},
-    {"guard": '^GraphInitializers\\.(__setitem__|_check_item): not isinstance\\(value, _core\\.Value\\)', "via": 'Value\\.name\\.setter', "why": 'the value re-keyed by the name setter is `self`, a Value', "requires": ()},
-    {"guard": '^GraphInitializers\\.(__setitem__|_check_item): (not \\(not value\\.name\\) and key != value\\.name|value\\.name and key != value\\.name)', "via": 'Value\\.name\\.setter', "why": 'the setter stores the new name in self._name before re-keying under the same new name', "requires": ()},
-    {"guard": '^GraphInitializers\\.(__setitem__|_check_item): value\\.producer\\(\\) is not None', "via": 'Value\\.name\\.setter', "why": 'an initializer has no producer (C01-R4)', "requires": ()},
-    {"guard": '^GraphInitializers\\.(_set_graph|_check_can_set_graph): value\\._graph is not None and value\\._graph is not self\\._graph', "via": 'Value\\.name\\.setter', "why": "the initializer's _graph is the graph whose initializers are re-keyed", "requires": ()},
-    {"guard": "^GraphInitializers\\.(__setitem__|_check_item): key == ''", "via": 'Value\\.name\\.setter', "why": "the setter rejects the empty string for an initializer before anything is written (fix 5006b98)", "requires": ("value == ''",)},
-    {"guard": '^GraphInitializers\\.(__setitem__|_check_item): not isinstance\\(key, str\\)', "via": 'Value\\.name\\.setter', "why": 'the new name is annotated str | None and None is rejected up front; a non-string name is a type-violating call (wrong Python types are outside the property, see NOT_DECIDED)', "requires": ()},
+    {"guard": '^GraphInitializers\\.(__setitem__|_check_item): not isinstance\\((value|\\$p2), _core\\.Value\\)', "via": 'Value\\.name\\.setter', "why": 'the value re-keyed by the name setter is `self`, a Value', "requires": ()},
+    {"guard": '^GraphInitializers\\.(__setitem__|_check_item): (not \\(not value\\.name\\) and key != value\\.name|value\\.name and key != value\\.name|\\$p2\\.name and \\$p1 != \\$p2\\.name)', "via": 'Value\\.name\\.setter', "why": 'the setter stores the new name in self._name before re-keying under the same new name', "requires": ()},
+    {"guard": '^GraphInitializers\\.(__setitem__|_check_item): (value|\\$p2)\\.producer\\(\\) is not None', "via": 'Value\\.name\\.setter', "why": 'an initializer has no producer (C01-R4)', "requires": ()},
+    {"guard": '^GraphInitializers\\.(_set_graph|_check_can_set_graph): (value|\\$p1)\\._graph is not None and (value|\\$p1)\\._graph is not self\\._graph', "via": 'Value\\.name\\.setter', "why": "the initializer's _graph is the graph whose initializers are re-keyed", "requires": ()},
+    {"guard": "^GraphInitializers\\.(__setitem__|_check_item): (key|\\$p1) == ''", "via": 'Value\\.name\\.setter', "why": "the setter rejects the empty string for an initializer before anything is written (fix 5006b98)", "requires": ("value == ''",)},
+    {"guard": '^GraphInitializers\\.(__setitem__|_check_item): not isinstance\\((key|\\$p1), str\\)', "via": 'Value\\.name\\.setter', "why": 'the new name is annotated str | None and None is rejected up front; a non-string name is a type-violating call (wrong Python types are outside the property, see NOT_DECIDED)', "requires": ()},
     {"guard": '^Value\\.name\\.setter: ', "via": 'GraphInitializers\\.(__setitem__|_check_item), .*Value\\.name\\.setter|Value\\.name\\.setter, .*GraphInitializers\\.(__setitem__|_check_item), .*Value\\.name\\.setter', "why": "__setitem__ names the value only when it has no name; re-entry of the setter from the setter's own re-keying sees name == key and returns early", "requires": ()},
-    {"guard": '^GraphInitializers\\.(__setitem__|_check_item): (not \\(not value\\.name\\) and key != value\\.name|value\\.name and key != value\\.name)', "via": 'GraphInitializers\\.update', "why": 'the commit writes `value.name = key` only for an unnamed value, and update rejects up front an unnamed value given under two different keys (fix b8d1d7f), so no key is ever compared with a name set for an earlier key', "requires": ('not \\$\\d+\\.name and .*id\\(\\$\\d+\\)',)},
+    {"guard": '^GraphInitializers\\.(__setitem__|_check_item): (not \\(not value\\.name\\) and key != value\\.name|value\\.name and key != value\\.name|\\$p2\\.name and \\$p1 != \\$p2\\.name)', "via": 'GraphInitializers\\.update', "why": 'the commit writes `value.name = key` only for an unnamed value, and update rejects up front an unnamed value given under two different keys (fix b8d1d7f), so no key is ever compared with a name set for an earlier key', "requires": ('not \\$\\d+\\.name and .*id\\(\\$\\d+\\)',)},
     {"guard": '^UserList\\.__setitem__@_GraphIO: `i` is an extended slice', "via": '_GraphIO\\.__setitem__', "why": 'the index branch runs under isinstance(i, SupportsIndex); the slice branch rejects an extended slice whose size differs from the assigned sequence before it releases or adopts anything (fix df0f9ca)', "requires": ('\\.step\\b.*len\\(',)},
     {"guard": '^UserDict\\.__delitem__@GraphInitializers: key of `del self\\.data\\[key\\]` absent', "via": 'Value\\.name\\.setter', "why": 'an initializer is stored under its current name (C01-R3d), which is the key popped', "requires": ()},
     {"guard": '^UserDict\\.__delitem__@GraphInitializers: key of `del self\\.data\\[key\\]` absent', "via": 'GraphInitializers\\.__delitem__', "why": '__delitem__ reads self.data[key] (KeyError before any write) before unsetting', "requires": ()},
-    {"guard": '^Graph\\.(_set_node_graph_to_self_and_assign_names|_check_node_can_be_added): node\\.graph is not None and node\\.graph is not self', "via": '^onnx_ir\\._core:Graph\\.sort,', "why": 'each bucket of sorted nodes is keyed by node.graph and extended into that same graph (C12-R2)', "requires": ()},
-    {"guard": '^Graph\\.(_set_node_graph_to_self_and_assign_names|_check_node_can_be_added): node\\.graph is not None and node\\.graph is not self', "via": '^onnx_ir\\._core:Node\\.__init__,', "why": 'the node under construction has self._graph = None assigned just before graph.append(self)', "requires": ()},
+    {"guard": '^Graph\\.(_set_node_graph_to_self_and_assign_names|_check_node_can_be_added): (node|\\$p1)\\.graph is not None and (node|\\$p1)\\.graph is not self', "via": '^onnx_ir\\._core:Graph\\.sort,', "why": 'each bucket of sorted nodes is keyed by node.graph and extended into that same graph (C12-R2)', "requires": ()},
+    {"guard": '^Graph\\.(_set_node_graph_to_self_and_assign_names|_check_node_can_be_added): (node|\\$p1)\\.graph is not None and (node|\\$p1)\\.graph is not self', "via": '^onnx_ir\\._core:Node\\.__init__,', "why": 'the node under construction has self._graph = None assigned just before graph.append(self)', "requires": ()},
     {"guard": '^Value\\.replace_all_uses_with: self\\.is_graph_output\\(\\) and not replace_graph_outputs', "via": '^onnx_ir\\._convenience:replace_nodes_and_values,', "why": 'replace_nodes_and_values passes replace_graph_outputs=True', "requires": ()},
     {"guard": '^Shape\\.__setitem__: self\\._frozen', "via": 'Value\\.merge_shapes', "why": 'merge_shapes copies a frozen shape before writing into it', "requires": ()},
     {"guard": '^(SymbolicDim\\.__init__|_maybe_convert_to_symbolic_dim): ', "via": 'Value\\.merge_shapes', "why": 'merged dims are taken from existing Shapes, whose elements are int or SymbolicDim', "requires": ()},
